@@ -17,7 +17,8 @@
 (*       observes in that interleaving.  NoConflict / ResultsSequential are    *)
 (*       evaluated in every state.  The recorded run itself must be one of the *)
 (*       explored behaviours (same check outcomes): Witnessed.                 *)
-(* (iii) every recorded `eq` bit must be true.                                 *)
+(* (iii) every recorded `eq` bit must be true (for calls whose result when run *)
+(*       alone is well defined: `det`, two identical twins agree on it).        *)
 (* Calls without cache segments touch immutable data only; they commute with   *)
 (* every step and are left out of the model programs.                          *)
 EXTENDS ConstCache, Json, IOUtils
@@ -113,7 +114,7 @@ GErr == [x \in 1..NE |-> ExecErr(x)]
 GOK(x) == GErr[x] = <<"ok">>
 
 \* (iii) the recorded result bits
-NotEq == [x \in 1..NE |-> IF GOK(x) THEN UNION {{<<t, k>> : k \in {kk \in 1..Len(Calls(x, t)) : ~Calls(x, t)[kk].eq}} : t \in 1..NT(x)} ELSE {}]
+NotEq == [x \in 1..NE |-> IF GOK(x) THEN UNION {{<<t, k>> : k \in {kk \in 1..Len(Calls(x, t)) : Calls(x, t)[kk].det /\ ~Calls(x, t)[kk].eq}} : t \in 1..NT(x)} ELSE {}]
 
 -----------------------------------------------------------------------------
 \* (ii) the model programs
